@@ -76,4 +76,8 @@ def plan(tier):
            bounds=BOUNDS[tier]["C"], symbolic="shape selectors",
            stubs=["_convert_name_to_convention -> tagging stub", "_replace_if_safeds_keyword -> tagging stub",
                   "pathlib I/O -> in-memory FS"]),
+        CH("docstring_defaults", "harness.c02", "docstring_defaults", ["0:0", "0:1"], timeout=t,
+           desc="default texts reported by the docstring parser (Python source text) are written as Safe-DS literals",
+           bounds="13 default texts x 2 parameter kinds x function/constructor x 2 naming settings", symbolic="shape selectors",
+           stubs=["pathlib I/O -> in-memory FS"]),
     ]
